@@ -1,52 +1,32 @@
-(* impl-model of cmdhandler/cmd.go: New (the regular expression built from the prefix),
-   Add, Execute.  Mirrors /repo as it is NOW: Add checks every alias (against the table,
-   the name and the earlier aliases) before it registers anything.
+(* impl-model of cmdhandler/cmd.go: New, Add, Execute.  Mirrors /repo as it is NOW:
+   - Add checks every alias (against the table, the name and the earlier aliases) before
+     it registers anything (79afa49);
+   - the prefix is compared byte for byte (strings.HasPrefix) and cut off; the regular
+     expression cmdMatch is fixed and only sees what follows the prefix; New never
+     fails (cd20b6b).
 
-   The regular expression cmdMatch of cmd.go, that is: BEGIN, QuoteMeta(prefix), a group
-   of 1 to 20 bytes of the class [a-z0-9-_], optionally (SPACE and a group "any number of
-   dots"), END, is modelled by a hand-written matcher with Go's semantics for exactly this pattern:
-   - regexp.Compile rejects a pattern that is not valid UTF-8, so New fails for such a
-     prefix; QuoteMeta makes every other prefix a literal;
-   - the matcher works on runes and decodes an invalid byte of the text as U+FFFD
-     (width 1), so a U+FFFD *in the prefix* also matches any invalid byte;
-   - the class is a-z, 0-9, '-', '_'; {1,20} is greedy but the byte after the name must
-     be the end of the text or a SPACE, neither of which is in the class, so the name
-     is the maximal run and no shorter alternative can succeed;
-   - `.` matches everything but '\n' and `$` (no (?m)) only the end of the text, so the
-     remainder after the SPACE must be newline free.
+   cmdMatch, that is: BEGIN, a group of 1 to 20 bytes of the class [a-z0-9-_], optionally
+   (SPACE and a group "any number of dots"), END, is modelled by a hand-written matcher with
+   Go's semantics for exactly this pattern:
+   - in Go's (RE2, Perl-flavoured) class syntax a '-' that cannot start a range is a
+     literal, so the class is a-z, 0-9, '-', '_' and nothing else; no case folding;
+   - {1,20} is greedy and the engine backtracks (leftmost-first), but the byte after the
+     name must be the end of the text or a SPACE, neither of which is in the class, so
+     the name is the maximal run and no shorter alternative can succeed; a run of more
+     than 20 therefore never matches;
+   - `.` matches every rune but '\n' (an invalid byte is decoded as U+FFFD, which `.`
+     matches) and `$` (no (?m)) only the very end of the text - not the position before a
+     final '\n' - so the remainder after the SPACE must be newline free;
+   - the class is pure ASCII, so a remainder that starts inside a multi-byte rune (a
+     prefix that is not valid UTF-8) cannot match by accident.
    No proofs here. *)
 Require Import Bytes Utf8 Names GoLower Ctcp.
 
 (* ---- the matcher ----------------------------------------------------- *)
 
-(* the literal prefix, rune-wise; returns the rest of the text *)
-Fixpoint match_lit (p t : str) : option str :=
-  match p with
-  | [] => Some t
-  | a :: p1 =>
-    let bytewise :=
-      match t with
-      | b :: t1 => if a =? b then match_lit p1 t1 else None
-      | [] => None
-      end in
-    match p1 with
-    | a1 :: a2 :: p3 =>
-      if (a =? 239) && (a1 =? 191) && (a2 =? 189) then
-        (* U+FFFD in the pattern: the same three bytes, or any byte that starts no
-           valid encoding *)
-        match t with
-        | [] => None
-        | b :: t1 =>
-          if prefixb [239; 191; 189] t then match_lit p3 (skipn 3 t)
-          else match rune_size t with
-               | None => match_lit p3 t1
-               | Some _ => None
-               end
-        end
-      else bytewise
-    | _ => bytewise
-    end
-  end.
+(* strings.HasPrefix(text, prefix) and text[len(prefix):] *)
+Definition strip_prefix (p t : str) : option str :=
+  if prefixb p t then Some (skipn (length p) t) else None.
 
 Definition name_byte_ok (b : N) : bool := is_lower b || is_digit b || (b =? 45) || (b =? 95).
 
@@ -58,7 +38,7 @@ Fixpoint span_name (s : str) : str * str :=
 
 (* FindStringSubmatch: Some (parsed[1], parsed[2]) on a match, None otherwise *)
 Definition cmd_match (prefix text : str) : option (str * str) :=
-  match match_lit prefix text with
+  match strip_prefix prefix text with
   | None => None
   | Some t =>
     let (n, rest) := span_name t in
@@ -105,9 +85,8 @@ Definition tbl_put (k : str) (c : command) (t : cmd_table) : cmd_table := (k, c)
 
 Record cmd_handler := mk_handler { h_prefix : str; h_cmds : cmd_table }.
 
-(* New: the only failure of regexp.Compile on a quoted literal is invalid UTF-8 *)
-Definition new_handler (prefix : str) : option cmd_handler :=
-  if valid_utf8 prefix then Some (mk_handler prefix []) else None.
+(* New: never fails (the error result is always nil) *)
+Definition new_handler (prefix : str) : cmd_handler := mk_handler prefix [].
 
 (* ---- Add ------------------------------------------------------------- *)
 
